@@ -456,9 +456,13 @@ def stream_scenario(rng):
     handles = {}            # handle -> (principal, ids)
     next_h = 0
     for p, mine in claims:
-        body = sum((ident(i) for i in mine), [])
+        named = list(mine)
+        if rng.random() < 0.35:
+            # the same actuator named twice in one claim (by id and by path, or the same way): still one claim
+            named.insert(rng.randrange(len(named) + 1), rng.choice(mine))
+        body = sum((ident(i) for i in named), [])
         extra = rng.choice([[], [0], [1]])
-        L.append([SPROV, p, len(mine) + len(extra)] + body + sum(([x] for x in extra), []))
+        L.append([SPROV, p, len(named) + len(extra)] + body + sum(([x] for x in extra), []))
         handles[next_h] = (p, mine)
         next_h += 1
     # claims that must fail and allocate nothing
@@ -477,13 +481,21 @@ def stream_scenario(rng):
         p = rng.choice([0, 0, 1, 2, 3])
         if c < 0.3:
             i = rng.choice(owned + free + [sensor])
-            L += [[ACTUATE, p, i] + val(i, rng.random() < 0.85)]
+            if rng.random() < 0.5:
+                L += [[ACTUATE, p, i] + val(i, rng.random() < 0.85)]
+            else:       # through the kuksa.val.v2 Actuate handler, the actuator named by id or by path
+                L += [[V2ACT, p] + ident(i) + [1, 1] + val(i, rng.random() < 0.85)]
         elif c < 0.6:
             xs = rng.sample(owned, min(len(owned), rng.randrange(1, 4)))
             if rng.random() < 0.2:
                 xs.append(rng.choice(free + [sensor, n + 7]))
             rng.shuffle(xs)
-            L += [[BATCH, p, len(xs)] + sum(([i] + val(i, rng.random() < 0.9) for i in xs), [])]
+            if rng.random() < 0.4:
+                L += [[BATCH, p, len(xs)] + sum(([i] + val(i, rng.random() < 0.9) for i in xs), [])]
+            else:
+                # through the kuksa.val.v2 BatchActuate handler: identifiers by id and by path mixed in every order,
+                # distinct values, so that a value delivered for the wrong actuator shows
+                L += [[V2BATCH, p, len(xs)] + sum((ident(i) + [1, 1] + val(i, rng.random() < 0.9) for i in xs), [])]
         else:
             h = rng.choice(sorted(handles))
             hp, mine = handles[h]
@@ -1518,6 +1530,14 @@ class Ctx:
                 out.add("UA")
         return out
 
+    def claimed_cause(self, ids, what):
+        """a claim answered 'already exists': some actuator it names must have a registered owner (live, or lost and
+        not yet removed by housekeeping); naming an actuator twice in one claim is no such cause"""
+        held = [x for x in self.owners if x[3] is not False and set(x[1]) & set(ids)]
+        if held:
+            return []
+        return ["C19-class: %s answered ALREADY_EXISTS although no provider is registered for any actuator it names" % what]
+
     def signal_causes(self, l, i):
         """causes of a v2 SignalID at token index i -> (causes, id or None, next)"""
         k = l[i]
@@ -1584,6 +1604,24 @@ def c19_check(d, o, ctx):
                 fails += _judge(name, CORE_ACT_CLASS.get(first[1]), cs, "batch")
             elif cs and "?" not in cs:
                 fails.append("C19-served: BATCH accepted although %s applies" % sorted(cs))
+        elif name == "PROVIDE" and "raw" not in d:
+            if first[:2] == [1, 8]:
+                fails += ctx.claimed_cause(d["ids"], "PROVIDE %s" % d["ids"])
+        elif "raw" in d and d["raw"][0] == SPROV:
+            l = d["raw"]
+            if first[:2] == [1, 6]:
+                ids, i, ok = [], 3, True
+                for _ in range(l[2]):
+                    if l[i] in (0, 1):          # an identifier that names nothing is skipped by the handler
+                        i += 1
+                        continue
+                    sid, i = _read_sig(l, i, ctx.byname)
+                    if sid is None:
+                        ok = False
+                    else:
+                        ids.append(sid)
+                if ok and not ctx.fuzzy:
+                    fails += ctx.claimed_cause(ids, "ProvideActuationRequest " + show_api(l))
         elif "raw" in d:
             l = d["raw"]
             op, p = l[0], l[1]
